@@ -55,14 +55,16 @@ class Engine:
     symbolic = True
 
     def __init__(self, max_paths=None, deadline=None, prefix=None, split_depth=None, seed=0,
-                 max_failures=8, sample_every=0):
+                 max_failures=8, sample_every=0, fixed=None, chunk=None):
         self.solver = z3.Solver()
         self.solver.set('timeout', 20000)
         self.plan = []          # entries: ['b', taken, both, flipped, nadds] | ['c', i, n, nadds] | ['v', vals, exhausted, nadds]
         self.fixed = 0          # leading plan entries that form a fixed prefix
         if prefix:
             self.plan = _snap(prefix)
-            self.fixed = len(self.plan)
+            self.fixed = len(self.plan) if fixed is None else fixed
+        self.chunk = chunk      # explore at most this many paths, then hand the pending alternatives back as continuations
+        self.conts = []
         self.split_depth = split_depth
         self.prefixes = []      # collected when split_depth is set
         self.stack = []         # z3 assertions currently pushed on the solver (incremental)
@@ -459,6 +461,30 @@ class Engine:
             self.plan.pop()
         return False
 
+    def pending(self):
+        """the unexplored alternatives of the current decision log, each as (plan, fixed) for a continuation job"""
+        conts = []
+        plan = self.plan
+        for i in range(len(plan) - 1, self.fixed - 1, -1):
+            ent = plan[i]
+            if ent[0] == 'b':
+                if ent[2] and not ent[3]:
+                    p = _snap(plan[:i + 1])
+                    p[i][1] = not p[i][1]
+                    p[i][3] = True
+                    conts.append((p, i))
+            elif ent[0] == 'c':
+                if ent[1] + 1 < ent[2]:
+                    p = _snap(plan[:i + 1])
+                    p[i][1] += 1
+                    conts.append((p, i))
+            elif ent[0] == 'v':
+                if ent[2] == 'open':
+                    p = _snap(plan[:i + 1])
+                    p[i][2] = 'advance'
+                    conts.append((p, i))
+        return conts
+
     def run(self, fn):
         import traceback
         t0 = time.time()
@@ -494,6 +520,9 @@ class Engine:
                     break
                 if len(self.degraded) >= 200:
                     self.incomplete = 'stopped after 200 degraded paths'
+                    break
+                if self.chunk and self.paths >= self.chunk:
+                    self.conts = self.pending()
                     break
                 if not self.backtrack():
                     break
